@@ -96,3 +96,39 @@ def pick_indices(n: int, edge: int, interior: list[int]) -> list[int]:
     for i in interior:
         s.add(edge + i % (n - 2 * edge))
     return sorted(s)
+
+
+def advertised_live(rep, now: Fraction, interior: list[int], edge: int = 3):
+    """What a live manifest makes addressable for one Representation at `now`, restricted to the
+    window edges plus chosen interior indices.  -> dict(mode, total, items) or None.
+    items: (window index, label, url, number or None, time or None, d in ticks or None)"""
+    m, tpl = rep.mpd, rep.template
+    if tpl is None or tpl.media is None:
+        return None
+    tl = tpl.timeline()
+    if tl is not None:
+        origin = m.ast + rep.period.start
+        avail = [(i, t, d) for i, (t, d) in enumerate(tl)
+                 if origin + Fraction(t + d - tpl.pto, tpl.timescale) <= now]
+        mode = "time" if rep.uses_time else "tl-number"
+        total = len(avail)
+    else:
+        if tpl.duration is None:
+            return None
+        mode = "number"
+        win = mpd.number_window(rep, now)
+        total = 0 if win is None else win[1] - win[0] + 1
+    items = []
+    if total:
+        for j in pick_indices(total, edge, interior):
+            if tl is not None:
+                i, t, d = avail[j]
+                if rep.uses_time:
+                    items.append((j, f"$Time$={t} d={d}", rep.media_url(time=t), None, t, d))
+                else:
+                    n = tpl.start_number + i
+                    items.append((j, f"$Number$={n} (S t={t})", rep.media_url(number=n), n, t, d))
+            else:
+                n = win[0] + j
+                items.append((j, f"$Number$={n}", rep.media_url(number=n), n, None, tpl.duration))
+    return {"mode": mode, "total": total, "items": items, "timeline": tl}
